@@ -169,6 +169,15 @@ def _parse_place(t):
     m = re.match(r'^(.*)\[(\d+) of (\d+)\]$', t)
     if m and _paren_balanced(m.group(1)):
         b, p, _ = _parse_place(m.group(1)); return (b, p + (('cidx', int(m.group(2))),), ty)
+    m = re.match(r'^(.*)\[-(\d+) of (\d+)\]$', t)
+    if m and _paren_balanced(m.group(1)):
+        b, p, _ = _parse_place(m.group(1)); return (b, p + (('cidx_end', int(m.group(2))),), ty)
+    m = re.match(r'^(.*)\[(\d+):(?:-(\d+))?\]$', t)           # subslice counted from the end: [a:] / [a:-b]
+    if m and _paren_balanced(m.group(1)):
+        b, p, _ = _parse_place(m.group(1)); return (b, p + (('sub', int(m.group(2)), int(m.group(3) or 0), True),), ty)
+    m = re.match(r'^(.*)\[(\d+)\.\.(\d+)\]$', t)             # subslice [a..b]
+    if m and _paren_balanced(m.group(1)):
+        b, p, _ = _parse_place(m.group(1)); return (b, p + (('sub', int(m.group(2)), int(m.group(3)), False),), ty)
     raise Unmodelled('place ' + t)
 
 
